@@ -38,6 +38,7 @@ type node struct {
 	kids  []*node
 	keys  [][]byte // dict keys (kids are the values, in writing order)
 	id    string   // compact, space-free label used in descriptors
+	raw   []byte   // string leaf with a fixed spelling (bypasses the string policy)
 	exact bool     // real leaf that must read back bit for bit (spelling identifies one float64)
 }
 
